@@ -341,8 +341,54 @@ func c10TypeTwin(w *C10World, env *Env) *Violation {
 		env.Fire("type-twin/" + kind)
 		env.Steps += 2 * uint64(w.Steps)
 	}
+	// port side: a neutral static port array vs the library's DumbIO with equal contents
+	{
+		a := c10Machine(&w2)
+		b := c10Machine(&w2)
+		pm := &plainMem{}
+		pm.b = a.Bus.Mem
+		pio := &plainIO{}
+		dio := make(z80.DumbIO, 256)
+		rr := world.NewRng(w.IOSeed)
+		for i := range pio.b {
+			pio.b[i] = rr.Byte()
+			dio[i] = pio.b[i]
+		}
+		dm := make(z80.DumbMemory, 65536)
+		copy(dm, b.Bus.Mem[:])
+		a.CPU.Memory, a.CPU.IO = pm, pio
+		b.CPU.Memory, b.CPU.IO = dm, dio
+		for k := 0; k < w.Steps; k++ {
+			a.Step()
+			b.Step()
+			if d := world.DiffStates(a.CPU.States, b.CPU.States, false); d != "" || a.CPU.HALT != b.CPU.HALT || !world.SameRequest(a.CPU.Interrupt, b.CPU.Interrupt) {
+				return viol("memory-type-independence", "after Step %d the CPU on the library's DumbMemory+DumbIO differs from the same CPU on neutral array devices with equal contents:%s", k, d)
+			}
+		}
+		for i := range pio.b {
+			if pio.b[i] != dio[i] {
+				return viol("memory-type-independence", "port %02x holds %02x on the neutral device and %02x on DumbIO at the end", i, pio.b[i], dio[i])
+			}
+		}
+		for i := range pm.b {
+			if pm.b[i] != dm[i] {
+				return viol("memory-type-independence", "final image differs at %04x between the neutral device (%02x) and DumbMemory (%02x)", i, pm.b[i], dm[i])
+			}
+		}
+		env.Fire("type-twin/DumbIO")
+	}
 	return nil
 }
+
+type plainMem struct{ b [65536]uint8 }
+
+func (m *plainMem) Get(a uint16) uint8    { return m.b[a] }
+func (m *plainMem) Set(a uint16, v uint8) { m.b[a] = v }
+
+type plainIO struct{ b [256]uint8 }
+
+func (p *plainIO) In(a uint8) uint8     { return p.b[a] }
+func (p *plainIO) Out(a uint8, v uint8) { p.b[a] = v }
 
 // solo runs one world alone.
 func c10Solo(w *C10World) (c10Sig, *[65536]uint8) {
